@@ -267,10 +267,8 @@ def _sasl_both(text):
         exp = ("err", None)
     st, r = call(saslprep, text)
     if st == "err":
-        if isinstance(r, ValueError):
-            got = ("err", None)
-        else:
-            raise r
+        # only ValueError is the documented refusal; anything else (an internal assertion, ...) is a wrong answer, not a harness problem
+        got = ("err", None) if isinstance(r, ValueError) else ("internal-error", type(r).__name__)
     else:
         got = ("ok", r)
     return got, exp
